@@ -686,6 +686,28 @@ func c01Check(c *mc.Ctx, k c01Case, doMem, doStreamW, doStreamR bool) {
 					return
 				}
 			}
+			if len(want) <= 4096 {
+				// the same values on a stream that ends with them (a request with nothing behind it yet): once everything has
+				// been delivered the reader has no reason to call Read again - on a live connection that call blocks
+				er3 := NewEnvReader(want, k.Env)
+				er3.Need = len(want)
+				dr3 := bufiox.NewDefaultReader(er3.Src())
+				br3 := thrift.NewBufferReader(dr3)
+				for i, v := range vals {
+					if _, err := cvBufRead(v.K, br3); err != nil {
+						bad("streamread-error:"+v.K, "BufferReader/DefaultReader failed on value #%d %v of a stream that ends with the values: %v", i, v, err)
+						failed = true
+						return
+					}
+				}
+				br3.Recycle()
+				if er3.LateCalls > 0 {
+					bad("streamread-read-after-all-values", "%d Read call(s) were issued on the source after all %d bytes of the values had been delivered (nothing follows them yet: on a live connection the call blocks)", er3.LateCalls, len(want))
+					failed = true
+					return
+				}
+				dr3.Release(nil)
+			}
 			if len(want) <= 1<<20 {
 				// the recycled stream reader is handed out again, now over ANOTHER stream and over a bufiox.Reader
 				// implementation of the caller's own: it must read that stream
